@@ -114,6 +114,10 @@ def family(kind, cfg):
         return dataclasses.make_dataclass("DeserOnly", [("d", datetime.date), ("m", typing.Dict[str, datetime.date], F(default_factory=dict)),
                                                        ("x", int, F(default=1, metadata={"serialization_strategy": {"deserialize": int}}))],
                                           bases=(DataClassDictMixin,), namespace=ns2)
+    if kind == "ann_generic":
+        TT = typing.TypeVar("TT")
+        G = dataclasses.make_dataclass("AG", [("g", TT)], bases=(typing.Generic[TT], DataClassDictMixin), namespace=dict(ns))
+        return typing.Annotated[G[int], "meta"]
     if kind == "plain":
         return dataclasses.make_dataclass("Plain", [("a", int, F(default=1)), ("n", typing.Optional[str], F(default=None))],
                                           namespace=ns)
@@ -313,6 +317,8 @@ def cube_main(S, env):
             schema, ctx = build_one(T, c)
         except RecursionError as e:
             return fail("C20/build-raised:RecursionError:%s" % S.kind, config=c)
+        except AssertionError as e:
+            return fail("C20/build-raised:AssertionError:%s" % S.kind, config=c)
         except Exception as e:
             return fail("C20/build-raised:%s" % type(e).__name__, config=c, exc=e, kind=S.kind)
         dialect = OPEN_API_3_1 if c["oapi"] else DRAFT_2020_12
